@@ -117,7 +117,7 @@ func genProgram(r *rng, p genParams) *Prog {
 		case x < 85:
 			add(Step{Op: "setname", K: r.intn(6), A: sel(), B: sel(), C: sel(), Name: name()})
 		case x < 88:
-			add(Step{Op: "setop", K: r.intn(3), A: sel(), B: sel(), C: sel(), D: sel(), P: sel()})
+			add(Step{Op: "setop", K: r.intn(6), A: sel(), B: sel(), C: sel(), D: sel(), P: sel()})
 		case x < 90:
 			add(Step{Op: "setinc", K: r.intn(3), A: sel(), B: sel(), C: sel(), D: sel(), P: sel()})
 		case x < 95:
@@ -884,6 +884,16 @@ func (mc *machine) exec1(s Step) bool {
 		switch {
 		case t.Equal(types.Label):
 			repl = mc.block(f, s.P)
+		case s.K%6 == 5 && (t.Equal(tI32) || t.Equal(tI64)):
+			// An operand of ANOTHER integer type (ill-typed IR, but a legal use of
+			// the operand view): whatever an instruction caches about its operand
+			// types must not depend on when it was first asked.
+			other := types.Type(tI64)
+			if t.Equal(tI64) {
+				other = tI32
+			}
+			repl = mc.pick(f, other, s.P)
+			mc.probes["operand replaced by a value of another type"]++
 		case t.Equal(tI1), t.Equal(tI8), t.Equal(tI32), t.Equal(tI64), t.Equal(tF64), t.Equal(tP32), t.Equal(tP8), t.Equal(tVec), t.Equal(tPair):
 			repl = mc.pick(f, t, s.P)
 		}
